@@ -132,6 +132,8 @@ def random_genotype(db, rng, n=None, allow_structural=True):
     dele = g.deletion_allele()
     normal = [c for c in tables.all_copies(g) if g.alleles[c[0]].cn_config == "1"]
     other = [c for c in tables.all_copies(g) if g.alleles[c[0]].cn_config != "1" and c[0] != dele]
+    if n is None and dele and g.pseudogenes and allow_structural and rng.random() < 0.06:
+        return []  # both haplotypes carry the whole-gene deletion
     n = n or rng.choice([1, 2, 2, 2, 3, 3, 4])
     if not dele and n < 2:
         n = 2
